@@ -54,7 +54,7 @@ PInit ==
     /\ ops = <<>>
     /\ cqs = <<>>
     /\ rem = <<>>
-    /\ flags = [syncLow |-> TRUE, syncUp |-> TRUE, deadSync |-> TRUE, none |-> TRUE, files |-> TRUE]
+    /\ flags = [syncLow |-> TRUE, syncUp |-> TRUE, deadSync |-> TRUE, none |-> TRUE, files |-> TRUE, readable |-> TRUE]
     /\ ended = FALSE
     /\ endBufs = <<>>
 
@@ -137,6 +137,13 @@ P_Sync(r, n) ==
                 ELSE [flags EXCEPT !.deadSync = @ /\ n = 0]
     /\ UNCHANGED <<now, rmeta, fh, ops, cqs, ended, endBufs>>
 
+\* AsyncFd::readable on ring r resolved (ok) / was given up by the consumer after
+\* the upper latency bound plus two ticks (~ok).
+P_Readable(r, ok) ==
+    /\ flags' = [flags EXCEPT !.readable =
+                    @ /\ (IF ok THEN Alive(r) /\ EligSet(r) # {} ELSE (~Alive(r)) \/ DueSet(r) = {})]
+    /\ UNCHANGED <<now, rmeta, fh, ops, cqs, rem, ended, endBufs>>
+
 \* CompletionQueue::next returned Some(cqe) on ring r.
 \*   data     buffer of the entry after the pop (<<>> unless it is a read)
 \*   exp      result of the same operation through the synchronous shim on the twin
@@ -198,7 +205,7 @@ P_End(bufs, feq) ==
 
 P_Reset ==   \* start of a new recorded run (trace validation only)
     /\ now' = 0 /\ rmeta' = <<>> /\ fh' = <<>> /\ ops' = <<>> /\ cqs' = <<>> /\ rem' = <<>>
-    /\ flags' = [syncLow |-> TRUE, syncUp |-> TRUE, deadSync |-> TRUE, none |-> TRUE, files |-> TRUE]
+    /\ flags' = [syncLow |-> TRUE, syncUp |-> TRUE, deadSync |-> TRUE, none |-> TRUE, files |-> TRUE, readable |-> TRUE]
     /\ ended' = FALSE /\ endBufs' = <<>>
 
 ---------------------------------------------------------------------------
@@ -227,6 +234,9 @@ Delivers == flags.none
 \* elapsed" (ring clock, DESIGN A.6): popped completions, and the count sync() shows.
 NotEarly  == \A k \in CqIdx : cqs[k].stb = "pend" => cqs[k].at >= cqs[k].dueLo
 SyncUpper == flags.syncUp
+\* the AsyncFd::readable drain pattern: it resolves only when a completion may be
+\* visible, and it does resolve once one is due
+ReadableOk == flags.readable
 
 \* a cancellation error is justified by a cancel that found the entry outstanding
 Backed(u) ==
@@ -279,5 +289,5 @@ BufferUntouched ==
 
 PropInv ==
     /\ CqeOnce /\ SyncLower /\ Delivers /\ NotEarly /\ SyncUpper /\ ResultOk /\ CancelPairs
-    /\ EffectOk /\ PushFull /\ DeadRingSilent /\ BufferUntouched
+    /\ EffectOk /\ PushFull /\ DeadRingSilent /\ BufferUntouched /\ ReadableOk
 =============================================================================
